@@ -13,7 +13,7 @@ TRUSTED = [
 EXPLANATION = ("Deductive: _sum_piece's loop is proved equal to the four documented sums for any compound; _compute (the nested "
                "function, extracted from neutron_composite_sld) is proved equal to the documented equations on the weighted sums "
                "for 1, 2 and 3 materials with arbitrary weights/density (material count bounded at 3: the numpy reductions are "
-               "unrolled; everything else unbounded), including the zero cases. Bounded 'sample' compares the calculator with "
+               "unrolled; everything else unbounded), including the zero cases; the direct side, neutron_scattering, is proved equal to the same documented equations (None only when an atom has no neutron data). Bounded 'sample' compares the calculator with "
                "neutron_sld(sum w_i m_i) natively for lists up to 6 materials, scalar/vector wavelengths.")
 
 
